@@ -6,6 +6,8 @@ package explore
 import (
 	"encoding/json"
 	"fmt"
+	"os"
+	"runtime"
 	"sort"
 	"strings"
 	"sync"
@@ -47,6 +49,15 @@ func Bubble(t *testing.T, prefix []int, body func(s *vsched.Sched) (outcome stri
 			panic(r)
 		}
 	}()
+	// watchdog (real time, outside the bubble): an execution that does not end is a
+	// harness problem (or a livelock in the code under test) and must not hang the check
+	stuck := time.AfterFunc(90*time.Second, func() {
+		buf := make([]byte, 1<<20)
+		n := runtime.Stack(buf, true)
+		fmt.Fprintf(os.Stderr, "EXECUTION STUCK (90 s wall clock) prefix=%v\n%s\n", prefix, buf[:n])
+		os.Exit(3)
+	})
+	defer stuck.Stop()
 	synctest.Test(t, func(t *testing.T) {
 		s := vsched.New(prefix)
 		defer func() {
